@@ -66,6 +66,54 @@ theorem halted_stays (p : Pattern ε) (r : Run ε) (e : ε) (h : r.halted = true
     (process p r e).2.halted = true := by
   rw [finished_absorbing p r e h]; exact h
 
+/-! ### the same for whole event streams (every length, every content) -/
+
+/-- a run offered the events of a stream one after the other (what the decider does to a run it keeps). -/
+def feed (p : Pattern ε) (r : Run ε) (es : List ε) : Run ε := es.foldl (fun r e => (process p r e).2) r
+
+/-- one step never shrinks the history. -/
+theorem hist_size_monotone (p : Pattern ε) (r : Run ε) (e : ε) :
+    Hist.size r.hist ≤ Hist.size (process p r e).2.hist := by
+  rcases history_append_only p r e with h | ⟨g, h⟩
+  · rw [h]; exact Nat.le_refl _
+  · rw [h]; have := history_grows r.hist g e; omega
+
+/-- **lifecycle is monotone over every stream**: position and history size never decrease. -/
+theorem feed_monotone (p : Pattern ε) (es : List ε) : ∀ r : Run ε,
+    r.idx ≤ (feed p r es).idx ∧ Hist.size r.hist ≤ Hist.size (feed p r es).hist := by
+  induction es with
+  | nil => intro r; exact ⟨Nat.le_refl _, Nat.le_refl _⟩
+  | cons e es ih =>
+    intro r
+    have h1 := idx_monotone p r e
+    have h2 := hist_size_monotone p r e
+    have h3 := ih (process p r e).2
+    simp only [feed, List.foldl_cons] at h3 ⊢
+    exact ⟨Nat.le_trans h1 h3.1, Nat.le_trans h2 h3.2⟩
+
+/-- … also between any two moments of one stream (a longer prefix is never behind a shorter one). -/
+theorem feed_prefix_monotone (p : Pattern ε) (r : Run ε) (es₁ es₂ : List ε) :
+    (feed p r es₁).idx ≤ (feed p r (es₁ ++ es₂)).idx ∧
+    Hist.size (feed p r es₁).hist ≤ Hist.size (feed p r (es₁ ++ es₂)).hist := by
+  have : feed p r (es₁ ++ es₂) = feed p (feed p r es₁) es₂ := by simp [feed, List.foldl_append]
+  rw [this]; exact feed_monotone p es₂ _
+
+/-- **finished is terminal over every stream**: a halted run is the same run after any events whatever. -/
+theorem feed_halted_terminal (p : Pattern ε) (es : List ε) : ∀ r : Run ε, r.halted = true → feed p r es = r := by
+  induction es with
+  | nil => intro r _; rfl
+  | cons e es ih =>
+    intro r h
+    have h1 : (process p r e).2 = r := by rw [finished_absorbing p r e h]
+    simp only [feed, List.foldl_cons, h1]
+    exact ih r h
+
+/-- once halted at some moment of a stream, halted (and unchanged) at every later moment. -/
+theorem feed_halted_forever (p : Pattern ε) (r : Run ε) (es₁ es₂ : List ε) (h : (feed p r es₁).halted = true) :
+    feed p r (es₁ ++ es₂) = feed p r es₁ := by
+  have : feed p r (es₁ ++ es₂) = feed p (feed p r es₁) es₂ := by simp [feed, List.foldl_append]
+  rw [this]; exact feed_halted_terminal p es₂ _ h
+
 end Bobo.Run
 
 namespace Bobo.Decider
